@@ -209,6 +209,51 @@ def observe(u, t, tcase, V, a, si, full=False):
                 V(f"C11:rdm:2dof:{cls}", f"calc_2dof_rdm(({dofs[i]},{dofs[j]})) differs from the dense partial trace "
                                          f"({'shape ' + str(got.shape) if got.shape != rho.shape else format(np.linalg.norm(got - rho), '.2e')})", si)
                 break
+        # 2-site RDMs (Tree.find_path + environments outside the path) over every ordered pair of all-physical nodes, in one
+        # call with a list and in one call with a tuple; 2-site entropy; mutual information of pairs of DoFs
+        try:
+            phys_nodes = [ni for ni, node in enumerate(tn.node_list)
+                          if tn.tn2bn[node].basis_sets and all(id(b) in bidx for b in tn.tn2bn[node].basis_sets)]
+            npairs = [(a_, b_) for a_ in phys_nodes for b_ in phys_nodes if a_ != b_]
+            if npairs:
+                r2s = tn.calc_2site_rdm(list(npairs))
+                single = tn.calc_2site_rdm(npairs[-1])
+                for (a_, b_) in npairs:
+                    ka = [bidx[id(b)] for b in tn.tn2bn[tn.node_list[a_]].basis_sets]
+                    kb = [bidx[id(b)] for b in tn.tn2bn[tn.node_list[b_]].basis_sets]
+                    sub_b = "".join(up[x] if x in ka + kb else letters[x] for x in range(N))
+                    out_idx = "".join(letters[x] for x in ka + kb) + "".join(up[x] for x in ka + kb)
+                    rho = np.einsum(f"{letters},{sub_b}->{out_idx}", psin, psin.conj())
+                    got = np.asarray(r2s[(a_, b_)])
+                    cls = "descending" if a_ > b_ else "ascending"
+                    if got.shape != rho.shape or np.linalg.norm(got - rho) > 1e-8:
+                        V(f"C11:rdm:2site:{cls}", f"calc_2site_rdm([({a_},{b_}), ...]) differs from the dense partial trace (ket indices of both nodes, then bra indices) "
+                                                  f"({'shape ' + str(got.shape) if got.shape != rho.shape else format(np.linalg.norm(got - rho), '.2e')})", si)
+                        break
+                    if (a_, b_) == npairs[-1]:
+                        g1 = np.asarray(single[(a_, b_)])
+                        if g1.shape != rho.shape or np.linalg.norm(g1 - rho) > 1e-8:
+                            V("C11:rdm:2site:tuple-argument", f"calc_2site_rdm(({a_},{b_})) differs from the dense partial trace", si)
+                        d = int(np.prod(rho.shape[:rho.ndim // 2]))
+                        s_ref = _vn(np.linalg.eigvalsh(rho.reshape(d, d)))
+                        s_got = tn.calc_2site_entropy((a_, b_))[(a_, b_)]
+                        if abs(s_got - s_ref) > 1e-7:
+                            V("C11:entropy:2site", f"2-site entropy of nodes ({a_},{b_}) = {s_got}, dense {s_ref}", si)
+            if N >= 2:
+                i, j = 0, N - 1
+                mi, _ents = tn.calc_2dof_mutual_info((dofs[i], dofs[j]))
+
+                def _s(keep):
+                    sub = "".join(up[x] if x in keep else letters[x] for x in range(N))
+                    o = "".join(letters[x] for x in keep) + "".join(up[x] for x in keep)
+                    rr = np.einsum(f"{letters},{sub}->{o}", psin, psin.conj())
+                    dd = int(np.prod(rr.shape[:rr.ndim // 2]))
+                    return _vn(np.linalg.eigvalsh(rr.reshape(dd, dd)))
+                ref = (_s([i]) + _s([j]) - _s([i, j])) / 2
+                if abs(mi[(dofs[i], dofs[j])] - ref) > 1e-7:
+                    V("C11:entropy:mutual-info", f"calc_2dof_mutual_info(({dofs[i]},{dofs[j]})) = {mi[(dofs[i], dofs[j])]}, dense (S_i + S_j - S_ij)/2 = {ref}", si)
+        except Exception as ex:
+            V(f"C11:rdm:2site-raises:{type(ex).__name__}", f"calc_2site_rdm / calc_2site_entropy / calc_2dof_mutual_info raised {type(ex).__name__}: {ex}", si)
         # bond entropies against the tree bipartitions
         try:
             be = tn.calc_bond_entropy() if len(tn.node_list) > 1 else []
